@@ -621,7 +621,7 @@ Proof.
   - intros m d Hin. unfold mdata in Hin. unfold RefSem.mty.
     destruct (nth_error decls (N.to_nat m)) as [dd|] eqn:Hn.
     + rewrite (nth_error_nth' _ _ [] _ (map_nth_error init_datum _ _ Hn)) in Hin.
-      unfold init_datum in Hin. destruct (md_kind dd), (md_nkeys dd); cbn in Hin; try contradiction.
+      unfold init_datum in Hin. destruct (Ast.md_kind dd), (md_nkeys dd); cbn in Hin; try contradiction.
       destruct Hin as [<- | []]. cbn. destruct (md_ty dd); reflexivity.
     + apply nth_error_None in Hn. rewrite nth_overflow in Hin by (rewrite map_length; exact Hn). destruct Hin.
 Qed.
